@@ -918,5 +918,147 @@ func extractC17Entry(c *Ctx, kf, bf *ast.File) error {
 	c.P("Definition send_valset_shape : list string := %s.", CoqStrList(shape))
 	c.P("Definition send_valset_loop : list string := %s.", CoqStrList(inLoop))
 	c.Info("entry_points", sites)
+	return extractC17Keys(c)
+}
+
+// Third part (round 3): the key families of the scheduler module's store.  Every KeyPrefix("lit") in
+// x/scheduler (non-test), the prefix of every prefix.NewStore in the keeper package, the id generator's key,
+// and every call of the keeper package that writes to a store.
+func extractC17Keys(c *Ctx) error {
+	files, err := c.ParseDir("x/scheduler/keeper")
+	if err != nil {
+		return err
+	}
+	tfiles, err := c.ParseDir("x/scheduler/types")
+	if err != nil {
+		return err
+	}
+	mfiles, err := c.ParseDir("x/scheduler")
+	if err != nil {
+		return err
+	}
+	lit := func(e ast.Expr) (string, bool) {
+		bl, ok := e.(*ast.BasicLit)
+		if !ok || len(bl.Value) < 2 || bl.Value[0] != '"' {
+			return "", false
+		}
+		return strings.Trim(bl.Value, "\""), true
+	}
+	jobPrefix := ""
+	others := map[string]bool{}
+	var writes []string
+	isHook := func(f *ast.File) bool {
+		return strings.HasPrefix(filepath.Base(c.Fset.Position(f.Pos()).Filename), "verif_hooks")
+	}
+	for _, f := range append(append(append([]*ast.File{}, files...), tfiles...), mfiles...) {
+		if isHook(f) || strings.HasSuffix(c.Fset.Position(f.Pos()).Filename, ".pb.go") || strings.HasSuffix(c.Fset.Position(f.Pos()).Filename, ".pb.gw.go") {
+			continue
+		}
+		var bad error
+		for _, d := range f.Decls {
+			inJobsStore := false
+			if fd, ok := d.(*ast.FuncDecl); ok && fd.Name.Name == "jobsStore" {
+				inJobsStore = true
+			}
+			ast.Inspect(d, func(n ast.Node) bool {
+				ce, ok := n.(*ast.CallExpr)
+				if !ok {
+					return true
+				}
+				name := ""
+				switch fn := ce.Fun.(type) {
+				case *ast.SelectorExpr:
+					name = fn.Sel.Name
+				case *ast.Ident:
+					name = fn.Name
+				}
+				switch name {
+				case "KeyPrefix":
+					if len(ce.Args) != 1 {
+						return true
+					}
+					l, ok := lit(ce.Args[0])
+					if !ok {
+						if _, isParam := ce.Args[0].(*ast.Ident); isParam {
+							return true // the definition's own body / a pass-through
+						}
+						bad = fmt.Errorf("KeyPrefix with a non-literal argument: %s", c.Src(ce))
+						return true
+					}
+					if inJobsStore {
+						if jobPrefix != "" && jobPrefix != l {
+							bad = fmt.Errorf("jobsStore uses two prefixes")
+						}
+						jobPrefix = l
+					} else {
+						others[l] = true
+					}
+				case "NewStore":
+					if len(ce.Args) == 2 {
+						inner, ok := ce.Args[1].(*ast.CallExpr)
+						if !ok || len(Calls(inner, "KeyPrefix")) != 1 {
+							bad = fmt.Errorf("prefix.NewStore with a prefix that is not KeyPrefix(\"...\"): %s", c.Src(ce))
+						}
+					}
+				case "NewIDGenerator":
+					if len(ce.Args) == 2 {
+						if id, ok := ce.Args[1].(*ast.Ident); ok && id.Name == "nil" {
+							uf, err := c.Parse("util/keeper/id_generation.go")
+							if err != nil {
+								bad = err
+								return true
+							}
+							v, ok := ConstValue(c, []*ast.File{uf}, "defaultIDKey")
+							if !ok {
+								bad = fmt.Errorf("defaultIDKey not found")
+								return true
+							}
+							others[strings.Trim(v, "\"")] = true
+						} else if l, ok := lit(ce.Args[1]); ok {
+							others[l] = true
+						} else {
+							bad = fmt.Errorf("NewIDGenerator with a key that is not a literal: %s", c.Src(ce))
+						}
+					}
+				}
+				return true
+			})
+		}
+		if bad != nil {
+			return bad
+		}
+	}
+	if jobPrefix == "" {
+		return fmt.Errorf("prefix of the jobs store not found")
+	}
+	// every store write of the keeper package
+	for _, f := range files {
+		if isHook(f) {
+			continue
+		}
+		for _, d := range f.Decls {
+			fd, ok := d.(*ast.FuncDecl)
+			if !ok || fd.Body == nil {
+				continue
+			}
+			ast.Inspect(fd.Body, func(n ast.Node) bool {
+				ce, ok := n.(*ast.CallExpr)
+				if !ok {
+					return true
+				}
+				if se, ok := ce.Fun.(*ast.SelectorExpr); ok {
+					switch se.Sel.Name {
+					case "Set", "Delete", "Save", "IncrementNextID":
+						writes = append(writes, fd.Name.Name+": "+squash(c.Src(ce)))
+					}
+				}
+				return true
+			})
+		}
+	}
+	c.P("(* the key families of the scheduler module's store *)")
+	c.P("Definition job_record_prefix : string := %s.", CoqStr(jobPrefix))
+	c.P("Definition other_key_prefixes : list string := %s.", CoqStrList(SortedSet(others)))
+	c.P("Definition store_write_sites : list string := %s.", CoqStrList(writes))
 	return nil
 }
